@@ -819,4 +819,255 @@ theorem nester_chain (M : Nat) (rest : List Tok) (hr : rest.head? ≠ some Tok.r
         refine ⟨f + 2, ?_⟩
         simp only [parseBpN, hd', if_false, List.cons_append, parsePrefixN, ha, hf, hlen]
 
+/-! ### every accepted input yields a tree whose minimal print fits the depth limit -/
+
+/-- frames needed by the minimal print of `e` standing as the operand of a frame running at
+    `min_bp = m` (that frame included): one more when `e` must be parenthesised -/
+def need (m : Nat) (e : Expr) : Nat := if topBp e < m then 1 + framesMin e else framesMin e
+
+theorem need_le (m : Nat) (e : Expr) : need m e ≤ 1 + framesMin e := by
+  unfold need; split <;> omega
+
+theorem need_of_le {m : Nat} {e : Expr} (h : m ≤ topBp e) : need m e = framesMin e := by
+  unfold need
+  have : ¬ topBp e < m := by omega
+  simp only [this, if_false]
+
+theorem framesMin_un (u : UnOp) (x : Expr) : framesMin (.un u x) = 1 + need PREFIX_BP x := by
+  simp only [framesMin, framesWith, need, Bool.false_or, decide_eq_true_eq]
+
+theorem framesMin_bin (l : Expr) (o : BinOp) (r : Expr) :
+    framesMin (.bin l o r) = max (need (lbp o) l) (1 + need (rbp o) r) := by
+  simp only [framesMin, framesWith, need, Bool.false_or, decide_eq_true_eq]
+
+theorem rbp_le (o : BinOp) : rbp o ≤ 100 := by cases o <;> decide
+theorem lbp_le (o : BinOp) : lbp o ≤ 100 := by cases o <;> decide
+
+theorem headStops_nonop {m : Nat} {t : Tok} {rest : List Tok} (h : binaryOf t = none) :
+    headStops m (t :: rest) := by
+  cases t <;> simp [binaryOf] at h <;> trivial
+
+theorem expectRParen_eq {e p : Expr} {ts rest : List Tok} (h : expectRParen e ts = .ok (p, rest)) : p = e := by
+  cases ts with
+  | nil => simp [expectRParen] at h
+  | cons t r =>
+    simp only [expectRParen] at h
+    by_cases ht : t = Tok.rparen
+    · simp [ht] at h; exact h.1.symm
+    · simp [ht] at h
+
+theorem depth_used (M : Nat) : ∀ f,
+    (∀ d m ts e rest, m ≤ 100 → parseBpN M f d m ts = .ok (e, rest) →
+        d + need m e ≤ M ∧ headStops m rest) ∧
+    (∀ d ts p rest, d + 1 ≤ M → parsePrefixN M f (d+1) ts = .ok (p, rest) →
+        ∀ m', m' ≤ 100 → d + need m' p ≤ M) ∧
+    (∀ d m lhs ts e rest bnd, m ≤ bnd → bnd ≤ 100 → (∀ m'', m'' ≤ bnd → d + need m'' lhs ≤ M) →
+        headStops (bnd+1) ts → ploopN M f (d+1) m lhs ts = .ok (e, rest) →
+        d + need m e ≤ M ∧ headStops m rest) := by
+  intro f
+  induction f with
+  | zero =>
+    refine ⟨?_, ?_, ?_⟩
+    · intro d m ts e rest _ h; simp [parseBpN] at h
+    · intro d ts p rest _ h; simp [parsePrefixN] at h
+    · intro d m lhs ts e rest bnd _ _ _ _ h; simp [ploopN] at h
+  | succ f ih =>
+    obtain ⟨ih1, ih2, ih3⟩ := ih
+    refine ⟨?_, ?_, ?_⟩
+    · intro d m ts e rest hm h
+      simp only [parseBpN] at h
+      by_cases hd : d + 1 > M
+      · simp [hd] at h
+      · simp only [hd, if_false] at h
+        cases hp : parsePrefixN M f (d+1) ts with
+        | error err => simp [hp] at h
+        | ok p =>
+          obtain ⟨lhs, rest0⟩ := p
+          simp only [hp] at h
+          have hJ := ih2 d ts lhs rest0 (by omega) hp
+          exact ih3 d m lhs rest0 e rest 100 hm (Nat.le_refl _) hJ
+            (headStops_mono (by decide) (headStops_prefix rest0)) h
+    · intro d ts p rest hd h m' hm'
+      simp only [parsePrefixN] at h
+      cases ts with
+      | nil => simp at h
+      | cons t rest1 =>
+        simp only at h
+        cases ha : prefixArm t with
+        | atom n =>
+          simp only [ha, Except.ok.injEq, Prod.mk.injEq] at h
+          rw [← h.1, need_of_le (by simp [topBp]; omega)]
+          simp [framesMin, framesWith]; omega
+        | wildcard =>
+          simp only [ha, Except.ok.injEq, Prod.mk.injEq] at h
+          rw [← h.1, need_of_le (by simp [topBp]; omega)]
+          simp [framesMin, framesWith]; omega
+        | unexpected => simp [ha] at h
+        | paren =>
+          simp only [ha] at h
+          by_cases hr : rest1.head? = some Tok.rparen
+          · simp only [hr, if_true, Except.ok.injEq, Prod.mk.injEq] at h
+            rw [← h.1, need_of_le (by simp [topBp]; omega)]
+            simp [framesMin, framesWith]; omega
+          · simp only [hr, if_false] at h
+            cases hp : parseBpN M f (d+1) 0 rest1 with
+            | error err => simp [hp] at h
+            | ok q =>
+              obtain ⟨e, rest'⟩ := q
+              simp only [hp] at h
+              have he := expectRParen_eq h
+              subst he
+              have h1 := (ih1 (d+1) 0 rest1 p rest' (by omega) hp).1
+              rw [need_of_le (Nat.zero_le _)] at h1
+              have := need_le m' p
+              omega
+        | unary u =>
+          simp only [ha] at h
+          cases hp : parseBpN M f (d+1) PREFIX_BP rest1 with
+          | error err => simp [hp] at h
+          | ok q =>
+            obtain ⟨x, rest'⟩ := q
+            simp only [hp, Except.ok.injEq, Prod.mk.injEq] at h
+            have h1 := (ih1 (d+1) PREFIX_BP rest1 x rest' (by decide) hp).1
+            rw [← h.1, need_of_le (by simp [topBp]; omega), framesMin_un]
+            omega
+    · intro d m lhs ts e rest bnd hmb hb100 hJ hst h
+      simp only [ploopN] at h
+      cases ts with
+      | nil =>
+        simp only [Except.ok.injEq, Prod.mk.injEq] at h
+        rw [← h.1, ← h.2]
+        exact ⟨hJ m hmb, trivial⟩
+      | cons t rest1 =>
+        simp only at h
+        cases hbo : binaryOf t with
+        | none =>
+          simp only [hbo, Except.ok.injEq, Prod.mk.injEq] at h
+          rw [← h.1, ← h.2]
+          exact ⟨hJ m hmb, headStops_nonop hbo⟩
+        | some o =>
+          have ht : t = Tok.op o := by
+            cases t <;> simp [binaryOf] at hbo
+            rw [hbo]
+          subst ht
+          simp only [hbo] at h
+          by_cases hl : lbp o < m
+          · simp only [hl, if_true, Except.ok.injEq, Prod.mk.injEq] at h
+            rw [← h.1, ← h.2]
+            exact ⟨hJ m hmb, by simpa [headStops] using hl⟩
+          · simp only [hl, if_false] at h
+            cases hp : parseBpN M f (d+1) (rbp o) rest1 with
+            | error err => simp [hp] at h
+            | ok q =>
+              obtain ⟨rhs, rest'⟩ := q
+              simp only [hp] at h
+              obtain ⟨hr1, hr2⟩ := ih1 (d+1) (rbp o) rest1 rhs rest' (rbp_le o) hp
+              have hlo : lbp o ≤ bnd := by simp only [headStops] at hst; omega
+              refine ih3 d m (.bin lhs o rhs) rest' e rest (lbp o) (by omega) (lbp_le o) ?_ ?_ h
+              · intro m'' hm''
+                rw [need_of_le (by simpa [topBp] using hm''), framesMin_bin]
+                have := hJ (lbp o) hlo
+                omega
+              · rw [← rbp_eq]; exact hr2
+
+/-! ### `!` is a spelling of `NOT` -/
+
+/-- replace every `!` token by `NOT` -/
+def normBang : Tok → Tok
+  | .bang => .notKw
+  | t => t
+
+def mapRest (r : PRes) : PRes :=
+  match r with
+  | .ok (e, rest) => .ok (e, rest.map normBang)
+  | .error e => .error e
+
+theorem prefixArm_normBang (t : Tok) : prefixArm (normBang t) = prefixArm t := by
+  cases t <;> rfl
+theorem binaryOf_normBang (t : Tok) : binaryOf (normBang t) = binaryOf t := by
+  cases t <;> rfl
+theorem normBang_rparen (t : Tok) : normBang t = Tok.rparen ↔ t = Tok.rparen := by
+  cases t <;> simp [normBang]
+
+theorem head_normBang (rest : List Tok) :
+    ((rest.map normBang).head? = some Tok.rparen) ↔ (rest.head? = some Tok.rparen) := by
+  cases rest with
+  | nil => simp
+  | cons t r => simp [normBang_rparen]
+
+theorem expectRParen_normBang (e : Expr) (rest : List Tok) :
+    expectRParen e (rest.map normBang) = mapRest (expectRParen e rest) := by
+  cases rest with
+  | nil => rfl
+  | cons t r =>
+    simp only [List.map_cons, expectRParen, normBang_rparen, List.length_cons, List.length_map]
+    by_cases h : t = Tok.rparen <;> simp [h, mapRest]
+
+theorem bang_eq_not (M : Nat) : ∀ f,
+    (∀ d m ts, parseBpN M f d m (ts.map normBang) = mapRest (parseBpN M f d m ts)) ∧
+    (∀ d ts, parsePrefixN M f d (ts.map normBang) = mapRest (parsePrefixN M f d ts)) ∧
+    (∀ d m l ts, ploopN M f d m l (ts.map normBang) = mapRest (ploopN M f d m l ts)) := by
+  intro f
+  induction f with
+  | zero =>
+    refine ⟨?_, ?_, ?_⟩
+    · intro d m ts; simp [parseBpN, mapRest]
+    · intro d ts; simp [parsePrefixN, mapRest]
+    · intro d m l ts; simp [ploopN, mapRest]
+  | succ f ih =>
+    obtain ⟨ih1, ih2, ih3⟩ := ih
+    refine ⟨?_, ?_, ?_⟩
+    · intro d m ts
+      simp only [parseBpN, List.length_map]
+      by_cases hd : d + 1 > M
+      · simp [hd, mapRest]
+      · simp only [hd, if_false]
+        rw [ih2]
+        cases hp : parsePrefixN M f (d+1) ts with
+        | error e => simp [mapRest]
+        | ok p => obtain ⟨lhs, rest⟩ := p; simp only [mapRest]; exact ih3 _ _ _ _
+    · intro d ts
+      cases ts with
+      | nil => simp [parsePrefixN, mapRest]
+      | cons t rest =>
+        simp only [List.map_cons, parsePrefixN, prefixArm_normBang, List.length_cons, List.length_map]
+        cases ha : prefixArm t with
+        | atom n => simp [mapRest]
+        | wildcard => simp [mapRest]
+        | unexpected => simp [mapRest]
+        | paren =>
+          simp only
+          by_cases hr : rest.head? = some Tok.rparen
+          · have hr' := (head_normBang rest).2 hr
+            simp only [hr, hr', if_true, mapRest]
+            cases rest <;> simp
+          · have hr' : ¬ (rest.map normBang).head? = some Tok.rparen := fun h => hr ((head_normBang rest).1 h)
+            simp only [hr, hr', if_false]
+            rw [ih1]
+            cases hp : parseBpN M f d 0 rest with
+            | error e => simp [mapRest]
+            | ok p => obtain ⟨e, rest'⟩ := p; simp only [mapRest]; exact expectRParen_normBang e rest'
+        | unary u =>
+          simp only
+          rw [ih1]
+          cases hp : parseBpN M f d PREFIX_BP rest with
+          | error e => simp [mapRest]
+          | ok p => obtain ⟨e, rest'⟩ := p; simp [mapRest]
+    · intro d m l ts
+      cases ts with
+      | nil => simp [ploopN, mapRest]
+      | cons t rest =>
+        simp only [List.map_cons, ploopN, binaryOf_normBang]
+        cases hb : binaryOf t with
+        | none => simp [mapRest]
+        | some o =>
+          simp only
+          by_cases hl : lbp o < m
+          · simp [hl, mapRest]
+          · simp only [hl, if_false]
+            rw [ih1]
+            cases hp : parseBpN M f d (rbp o) rest with
+            | error e => simp [mapRest]
+            | ok p => obtain ⟨rhs, rest'⟩ := p; simp only [mapRest]; exact ih3 _ _ _ _
+
 end Neumann.Parse
